@@ -8,16 +8,19 @@
        forall I, every asserted term / definition body / command argument t of cmds satisfies
        std_eval Sigma I (the sexp it came from) = Some (eval I t);
      and  lex_model cs = std_lex cs  on standard-conforming characters.
-   The faithful model FALSIFIES the clauses "simultaneous let-bindings", "scoping of quantified and
-   defined names", "literals in every notation" and "text it cannot handle is rejected": the
-   _refuted theorems below give the witness scripts (known findings of C08).  Proved parts:
+   The faithful model FALSIFIES the clauses "scoping of ... defined names" (capture at the
+   application of a defined function), "literals in every notation" (quoted symbols) and "text it
+   cannot handle is rejected" (undeclared identifiers): the _refuted theorems below give the witness
+   scripts (open findings of C08).  The clauses "simultaneous let-bindings" and "a binder shadows a
+   defined name" were refuted by the first model and are repaired in parser.py: their former
+   witnesses are now positive theorems (C08_let_parallel, C08_binder_shadows_definition).  Proved parts:
    the tokenizer on plain tokens (lex_agrees_partial) and agreement with the standard on every
    text that is a print-out the reader maps back to its term (parse_agrees_printed_partial; the
    round trip itself is C09's theorem).  The remaining instances of parse_agrees are carried by
    the correspondence (model = implementation) and the independent reader harness/c08_ref.py. *)
 From Coq Require Import List ZArith Bool String Ascii.
 From PySMT.core Require Import Syntax Sem SmtStd.
-From PySMT.models Require Import TypeChecker SmtLex SmtParser SmtPrinter.
+From PySMT.models Require Import TypeChecker SmtLex SmtParser SmtPrinter RoundTrip.
 From PySMT.proofs Require Import SmtPrinter_proofs SmtParser_proofs.
 Import ListNotations.
 Open Scope string_scope.
@@ -26,6 +29,9 @@ Theorem C08_lex_agrees_partial : forall toks,
   Forall plain_tok toks -> lex (render_sp toks) = (toks, LexEof).
 Proof. exact lex_agrees_partial. Qed.
 Print Assumptions C08_lex_agrees_partial.
+
+Theorem C08_lex_src_tokens : forall cs, proj_src (lex_src cs) = lex cs.
+Proof. exact lex_src_tokens. Qed.
 
 Theorem C08_lex_agrees_hypothesis_satisfiable :
   Forall plain_tok ["("; "assert"; "("; "bvult"; "#b01"; "x"; ")"; ")"].
@@ -38,23 +44,26 @@ Theorem C08_parse_agrees_printed_partial : forall Sg I s t t',
 Proof. exact parse_agrees_printed_partial. Qed.
 Print Assumptions C08_parse_agrees_printed_partial.
 
-(* simultaneous let-bindings *)
-Theorem C08_let_parallel_refuted :
-  exists t,
+(* simultaneous let-bindings: repaired in parser.py; the former counter-example and the whole
+   family of two-binding lets over x, y, true, false are read as the standard says *)
+Theorem C08_let_parallel :
+  (exists t,
     parse_model let_text = Ok [decl "x" TBool; decl "y" TBool; mkC "assert" [ATerm t]] /\
     fst (lex_string "(assert (let ((x y) (y x)) y))") = ("(" :: "assert" :: flatten let_sexp ++ [")"])%list /\
-    exists I, std_eval (sig_of [("x", TBool); ("y", TBool)]) I let_sexp <> Some (eval I t).
-Proof. exact let_parallel_refuted. Qed.
-Print Assumptions C08_let_parallel_refuted.
+    forall I, std_eval sig_xy I let_sexp = Some (eval I t)) /\
+  Forall let_reads let_family /\ List.length let_family = 32%nat.
+Proof. exact (conj let_parallel_witness (conj let_parallel_family eq_refl)). Qed.
+Print Assumptions C08_let_parallel.
 
-(* scoping of quantified names against defined names *)
-Theorem C08_definefun_shadows_binder_refuted :
+(* scoping of quantified names against defined names: repaired in parser.py (a binding shadows a
+   definition of the same name) *)
+Theorem C08_binder_shadows_definition :
   exists t,
     parse_model shadow_text =
       Ok [mkC "define-fun" [AStr "x"; AList []; AType TBool; ATerm TFalse]; mkC "assert" [ATerm t]] /\
-    forall I, std_eval (sig_of []) I shadow_sexp = Some (VBool true) /\ eval I t = VBool false.
-Proof. exact definefun_shadows_binder_refuted. Qed.
-Print Assumptions C08_definefun_shadows_binder_refuted.
+    forall I, std_eval (sig_of []) I shadow_sexp = Some (VBool true) /\ eval I t = VBool true.
+Proof. exact binder_shadows_definition_witness. Qed.
+Print Assumptions C08_binder_shadows_definition.
 
 (* defined names: capture of free variables by the body's binders *)
 Theorem C08_definefun_capture_refuted :
